@@ -1584,6 +1584,13 @@ func checkC05(c *Ctx, r *Report) {
 	r.Assumptions = []string{"channel FIFO: a marker sent after item x is received after x", "(*os.File).Close releases the descriptor"}
 	ro := c.roles(r)
 	fileAppenderDecisions(r, c.checkFileAppenderSemantics(r, ro, "C05.file-values"))
+	for tn, ok := range c.checkRollingLoggerSemantics(r, ro, "C05.rolling-values") {
+		if ok {
+			tn := tn
+			r.Decide([]string{"C05.owned-lifecycle:"}, func(k string) bool { return strings.HasPrefix(k, "C05.owned-lifecycle:"+tn+".") && !strings.Contains(strings.ToLower(k), "async") },
+				tn+" evaluated in synchronous mode: Start opens the files of the appenders it creates, Stop closes them all")
+		}
+	}
 	if c.checkLifecycleSemantics(r, ro, "C05.lifecycle-values", r.Tier == "thorough") {
 		r.Decide([]string{"C05.registered:", "C05.destroy-order:"}, nil, "Refresh/Destroy evaluated: everything started is stopped once, loggers first")
 	}
